@@ -6,6 +6,6 @@ CONSTANTS
   Period = 5
   MaxT = 17
   Steps = {1, 4, 5}
-  AsBuilt = {"EmptyAnswerIsError"}
+  AsBuilt = {"MintCachesAdmin"}
 INVARIANTS AdminJustified Reevaluated RemovedLosesRights
 CHECK_DEADLOCK FALSE
